@@ -282,6 +282,9 @@ def check(run, M, tier):
 
     # ---- A6
     check_raw_axes(run, M, "A6", scope="C01")
+    # ---- A8 relational obligations on the numerical cores of the pairs
+    from . import adjcore
+    adjcore.check(run, M, tier)
     # ---- A7
     _check_factories(run, M, alg)
     run.info("numerical cores of the pairs are decided where they live: C05 (fft), C06 (nufft), C07 (interp kernels), "
